@@ -279,16 +279,16 @@ class Timeout(Exception):
 
 
 def _on_alarm(signum, frame):
-    raise Timeout('wall clock limit')
+    raise Timeout('CPU time limit')
 
 
 def with_timeout(seconds, f, *a, **kw):
-    signal.signal(signal.SIGALRM, _on_alarm)
-    signal.setitimer(signal.ITIMER_REAL, seconds)
+    signal.signal(signal.SIGVTALRM, _on_alarm)
+    signal.setitimer(signal.ITIMER_VIRTUAL, seconds)
     try:
         return f(*a, **kw)
     finally:
-        signal.setitimer(signal.ITIMER_REAL, 0)
+        signal.setitimer(signal.ITIMER_VIRTUAL, 0)
 
 
 # ------------------------------------------------------------------ result accumulation
